@@ -499,6 +499,20 @@ Theorem zero_addon_payback a : a_capex a == 0 -> a_opex a == 0 -> a_egain a == 0
   payback (running (addon_project_cashflow a)) == payback (running (base_project_cashflow a)).
 Proof. intros. apply payback_ext. now apply zero_addon_cumulative. Qed.
 
+(* ... and the same project VIR and MOIC (AdjustedProjectCAPEX = CCap + add-on CAPEX, AdjustedProjectOPEX = Coam + add-on OPEX) *)
+Theorem zero_addon_vir a r : a_capex a == 0 -> a_opex a == 0 -> a_egain a == 0 -> a_hgain a == 0 -> a_profit a == 0 ->
+  vir (npv r (addon_project_cashflow a)) (a_ccap a + a_capex a) == vir (npv r (base_project_cashflow a)) (a_ccap a).
+Proof.
+  intros Hc Ho He Hh Hp. unfold vir. rewrite (zero_addon_npv a r Hc Ho He Hh Hp), Hc, Qplus_0_r. reflexivity.
+Qed.
+Theorem zero_addon_moic a life : a_capex a == 0 -> a_opex a == 0 -> a_egain a == 0 -> a_hgain a == 0 -> a_profit a == 0 ->
+  moic (running (addon_project_cashflow a)) (a_ccap a + a_capex a) (a_coam a + a_opex a) life
+  == moic (running (base_project_cashflow a)) (a_ccap a) (a_coam a) life.
+Proof.
+  intros Hc Ho He Hh Hp. unfold moic.
+  rewrite (last_ext _ _ (zero_addon_cumulative a Hc Ho He Hh Hp) 0 0 (Qeq_refl 0)), Hc, Ho, !Qplus_0_r. reflexivity.
+Qed.
+
 (* homogeneity of the code's own (vector) computation, through C01 *)
 Lemma teq_sym a b : teq a b -> teq b a.
 Proof. unfold teq. intros (H1 & H2 & H3). repeat split; symmetry; assumption. Qed.
